@@ -12,6 +12,15 @@ BASE_NOTE = (
 
 # property -> (category, text, technique, design_ref, extra note)
 CLAIMS = {
+    "C09": (
+        "other",
+        "Depth ghost contracts on the real RenderContext.copy (every copy is exactly one level deeper and is cut off with ContextDepthError exactly beyond the limit) and RenderContext.extend (the block runs one scope deeper, cut off beyond the limit); "
+        "a structural obligation that every place a node renders another template / macro / parent block does so through copy or extend; loop-variant obligations (every iteration consumes a token or exits) on all 30+ token-stream while loops of the parser, tags and expression parsers; the extends chain walk grows `seen` at every step (C18). "
+        "A bounded check parses every 1-2 piece (thorough 3) sequence of 28 block-tag pieces under a time budget and runs 7 recursive families at block depths 0..29.",
+        "contract-based deductive verification (depth ghost) + structural variant / call-site obligations + bounded contract check",
+        "DESIGN.md section 4 C09",
+        "Known finding: the Python stack is exhausted before the depth limit when the recursive call sits inside nested blocks. Regex backtracking time is not covered.",
+    ),
     "C19": (
         "other",
         "Local completeness obligations per Node subclass (enumerated mechanically): every expression-valued field a render method may evaluate is produced by expressions() (or belongs to a child node that reports it), every node field it may render is produced by children(); "
